@@ -32,7 +32,10 @@ GL_FEATURES = FN_FEATURES + ['GLOBTILDE', 'GLOBSTAR', 'NODOTDIR', 'GLOBSTARLONG'
 DRIVES = ['c:/', 'C:', '//host/share/', '//?/UNC/h/s/', '//?/c:/', '//./Volume{b75e2c83-0000-0000-0000-602f00000000}/',
           '//?/GLOBAL/c:/', '//?/GLOBAL/UNC/h/s/', '//host/sh*re/', '//ho[s]t/share/', '//srv/sh?re/', '//a/[bc]/', '//?/c:*', '//srv/sh*',
           '//?/UNC/ser*ver/share/', '//?/unc/ser*ver/sh?re/', '//?/GLOBAL/UNC/h[s]/s/', '//./Unc/a*/b/', '//?/Global/c:/', '//?/UNC/(a)/!b/',
-          '//?/GLOBAL/Unc/a-b/~c/', '//./UNC/h/s*/']
+          '//?/GLOBAL/Unc/a-b/~c/', '//./UNC/h/s*/',
+          # extended prefixes whose UNC / GLOBAL keyword lacks the parts that have to follow it
+          '//?/UNC/x', '//?/UNC/', '//?/UNC', '//?/GLOBAL/UNC/x', '//?/GLOBAL', '//?/GLOBAL/GLOBAL', '//./unc/a', '//?/global/unc', '//?/unc/a*',
+          '//?/x', '//?/GLOBAL/x/']
 
 
 def subsets(features, idx, rng):
@@ -119,7 +122,27 @@ def neighbours(s, rng, extra='a.\\*/'):
     return out
 
 
+def incomplete_extended_prefix(s):
+    """`//?/` or `//./` followed by (GLOBAL/)* and then a UNC keyword without the two parts it needs, or nothing at all."""
+    parts = s.replace('\\', '/').split('/')
+    if len(parts) < 4 or parts[0] or parts[1] or parts[2] not in ('?', '.'):
+        return False
+    rest = [p_ for p_ in parts[3:]]
+    i = 0
+    while i < len(rest) and rest[i].lower() == 'global':
+        i += 1
+    if i < len(rest) and rest[i].lower() == 'unc':
+        need = rest[i + 1:i + 3]
+        return len(need) < 2 or not all(need)
+    return i >= len(rest) or not rest[i]
+
+
 def classify(s, t, fnames, exp=None, got=None):
+    if 'FORCEWIN' in fnames and exp is False and got is True and s[2:3] == '?' and len(t) == len(s) and t[2:3] != '?' and \
+            (t[:2] + t[3:]).replace('\\', '/').lower() == (s[:2] + s[3:]).replace('\\', '/').lower() and incomplete_extended_prefix(s):
+        # escape() / is_magic() take `//?/UNC` for a complete `//server/share` drive and leave the `?` alone; the pattern parser
+        # does not (the keyword needs two more parts), so the `?` is a wildcard there
+        return 'KF-ESCAPE-INCOMPLETE-EXTENDED-UNC'
     if exp is True and got is False and t.endswith('\n') and 'NODOTDIR' in fnames:
         # `(?!\.[.]?(?:$|/))\.` : a final segment `.\n` / `..\n` looks like `.` / `..` to the NODOTDIR guard
         last = t.replace('\\', '/').split('/')[-1] if 'FORCEWIN' in fnames else t.split('/')[-1]
